@@ -385,7 +385,7 @@ class Case:
                 there = prov.info_path(dst)
                 if there is not None and there.oid != info.oid:       # (same object: case-only rename)
                     raise InvalidTrace("rename: target exists")
-                if prov.is_subpath(info.path, dst):
+                if prov.is_subpath(info.path, dst) and not (there is not None and there.oid == info.oid):
                     raise InvalidTrace("rename: into own subtree")
                 return prov.rename(info.oid, dst)
             if op == "delete":
